@@ -66,10 +66,11 @@ Record iobs := mkIObs {
   io_hb_ta : Z;            (* start of the latest refresh attempt of the running term (the claim itself at first) *)
   io_hb_te : Z;            (* its end (answer looked at, or the loop's time-out); -1 while it is in flight *)
   io_hb_op : Z;            (* the call of that attempt *)
-  io_cancelled : bool      (* the context passed to Start has been cancelled and no Start was accepted since *)
+  io_cancelled : bool;     (* the context passed to Start has been cancelled and no Start was accepted since *)
+  io_stop_t : Z            (* time of the call that began the shutdown in progress *)
 }.
-#[export] Instance eta_iobs : Settable _ := settable! mkIObs <io_flag; io_tok; io_acq_rev; io_state; io_started; io_stopping; io_stopped; io_terms; io_views; io_false_cause; io_promotes; io_demotes; io_ended; io_hb_ta; io_hb_te; io_hb_op; io_cancelled>.
-Definition iobs0 := mkIObs false 0 0 stInit false false false 0 [] 0 0 0 0 0 0 0 false.
+#[export] Instance eta_iobs : Settable _ := settable! mkIObs <io_flag; io_tok; io_acq_rev; io_state; io_started; io_stopping; io_stopped; io_terms; io_views; io_false_cause; io_promotes; io_demotes; io_ended; io_hb_ta; io_hb_te; io_hb_op; io_cancelled; io_stop_t>.
+Definition iobs0 := mkIObs false 0 0 stInit false false false 0 [] 0 0 0 0 0 0 0 false 0.
 
 Record base := mkBase {
   b_now : Z;
@@ -82,11 +83,12 @@ Record base := mkBase {
   b_rets : amap lastret;              (* goroutine -> its last returned store call *)
   b_inst : amap iobs;
   b_ended : bool;                     (* the harness has begun its wind-down *)
-  b_done : list Z                     (* store calls that have returned to their caller *)
+  b_done : list Z;                    (* store calls that have returned to their caller *)
+  b_wt : amap Z                       (* key -> time of the last message stored under it *)
 }.
-#[export] Instance eta_base : Settable _ := settable! mkBase <b_now; b_cfgs; b_vals; b_seq; b_last; b_hist; b_pend; b_rets; b_inst; b_ended; b_done>.
+#[export] Instance eta_base : Settable _ := settable! mkBase <b_now; b_cfgs; b_vals; b_seq; b_last; b_hist; b_pend; b_rets; b_inst; b_ended; b_done; b_wt>.
 #[export] Instance eta_pend : Settable _ := settable! mkPend <p_i; p_kind; p_inner; p_root; p_gid; p_key; p_val; p_exp; p_t; p_applied>.
-Definition base0 := mkBase 0 [] [] 0 [] [] [] [] [] false [].
+Definition base0 := mkBase 0 [] [] 0 [] [] [] [] [] false [] [].
 
 Definition zb (z : Z) : bool := negb (z =? 0).
 
@@ -97,6 +99,7 @@ Definition vinfo_of (b : base) (v : Z) : vinfo :=
 Definition inst_of (b : base) (i : Z) : iobs :=
   match aget (b_inst b) i with Some x => x | None => iobs0 end.
 
+Definition wt_of (b : base) (k : Z) : Z := match aget (b_wt b) k with Some w => w | None => 0 end.
 Definition last_of (b : base) (k : Z) : option (Z * Z * bool) := aget (b_last b) k.
 Definition last_rev_of (b : base) (k : Z) : Z := match last_of b k with Some (r, _, _) => r | None => 0 end.
 Definition live_of (b : base) (k : Z) : bool := match last_of b k with Some (_, _, t) => negb t | None => false end.
@@ -117,7 +120,7 @@ Definition upd_inst (b : base) (i : Z) (f : iobs -> iobs) : base := set_inst b i
 
 Definition publish (b : base) (key rev author val : Z) (tomb : bool) (how site exp : Z) : base :=
   let v := mkVer key rev author val tomb how site exp (b_now b) (last_of b key) in
-  b <| b_seq := rev |> <| b_last ::= fun m => aset m key (rev, val, tomb) |> <| b_hist ::= cons v |>.
+  b <| b_seq := rev |> <| b_last ::= fun m => aset m key (rev, val, tomb) |> <| b_hist ::= cons v |> <| b_wt ::= fun m => aset m key (b_now b) |>.
 
 (* does this returned call justify raising the claim (becomeLeader(token, rev))? *)
 Definition lr_won (r : lastret) : bool :=
@@ -187,7 +190,7 @@ Definition bapply (b0 : base) (te : Z * ev) : base :=
       else b
   | EApi i call a1 a2 a3 a4 gid =>
       (* cancelling the context passed to Start begins a shutdown as well (call 8) *)
-      if (call =? aStop) || (call =? aStopCtx) || (call =? 8) then upd_inst b i (fun x => x <| io_stopping := true |>)
+      if (call =? aStop) || (call =? aStopCtx) || (call =? 8) then upd_inst b i (fun x => x <| io_stopping := true |> <| io_stop_t := (if io_stopping x then io_stop_t x else t) |>)
       else b
   | EApiRet i call res err _ =>
       if (call =? aStop) || (call =? aStopCtx) then
